@@ -225,6 +225,9 @@ func (e *c10Env) afterStop(when string) *vVerdict {
 		time.Sleep(10 * time.Millisecond)
 	}
 	if len(extra) > 0 {
+		if vStarved(20 * time.Second) {
+			return &vVerdict{Inconclusive: "goroutines still alive 3 s after the stop, but this process was not scheduled for most of a second meanwhile (overloaded machine)"}
+		}
 		v := vFailf("goroutines-left|"+strings.Split(extra[0], " ")[0], "%s: the source is stopped but these goroutines of the run are still alive 3 s later: %v", when, extra)
 		return &v
 	}
@@ -530,6 +533,9 @@ func c10Run(c c10Case) (v vVerdict) {
 			}
 			time.Sleep(time.Millisecond)
 		}
+		if vStarved(20 * time.Second) {
+			return &vVerdict{Inconclusive: "no block within 8 s, but this process was not scheduled for most of a second meanwhile (overloaded machine)"}
+		}
 		f := vFailf("no-blocks|"+what, "%s: the source is active but no data block was processed within 8 s", what)
 		return &f
 	}
@@ -762,6 +768,9 @@ func c10Run(c c10Case) (v vVerdict) {
 			}
 			if !e.queue(func() {}, 8*time.Second) {
 				if e.ds.Running() {
+					if vStarved(20 * time.Second) {
+						return vVerdict{Inconclusive: "request not taken within 8 s, but this process was not scheduled for most of a second meanwhile (overloaded machine)"}
+					}
 					return vFailf("request-not-served", "op %d: a queued request was not taken by the core loop within 8 s although the source is active", i)
 				}
 			}
